@@ -33,6 +33,15 @@ pub fn replay_file(path: &str) -> i32 {
             println!("NOT-REPRODUCED property={prop}: the recorded case passes on the current tree");
             0
         }
+        Err(e) if e == "RE-EXEC-SCALAR" => {
+            let exe = std::env::current_exe().expect("exe");
+            let st = std::process::Command::new(exe)
+                .args(["replay", path])
+                .env("WIREFILTER_USE_AVX2", "0")
+                .status()
+                .expect("re-exec");
+            st.code().unwrap_or(2)
+        }
         Err(e) => {
             eprintln!("cannot replay: {e}");
             2
